@@ -6,6 +6,7 @@ import (
 	"fmt"
 	"os"
 	"sync"
+	"time"
 
 	"github.com/caddyserver/caddy/v2"
 	"github.com/caddyserver/caddy/v2/caddyconfig/caddyfile"
@@ -43,11 +44,16 @@ func (v *Validator) Close() {
 
 // LoadValidatorJSON loads the module the way caddy does from a JSON config: strict decoding + Provision.
 func LoadValidatorJSON(cfg json.RawMessage) (*Validator, error) {
+	return LoadValidatorJSONWithin(cfg, DefaultWatchdog)
+}
+
+// LoadValidatorJSONWithin is LoadValidatorJSON with an explicit watchdog (provisioning a million-entry list takes long).
+func LoadValidatorJSONWithin(cfg json.RawMessage, wdog time.Duration) (*Validator, error) {
 	type res struct {
 		v   *Validator
 		err error
 	}
-	r, werr := Call("LoadModuleByID", DefaultWatchdog, func() res {
+	r, werr := Call("LoadModuleByID", wdog, func() res {
 		ctx, cancel := caddy.NewContext(caddy.Context{Context: context.Background()})
 		m, err := ctx.LoadModuleByID("tls.client_auth.verifier.revocation", cfg)
 		if err != nil {
